@@ -21,7 +21,7 @@ META = dict(
     explanation='each dialect code path is proved equal to the same dialect-independent Python meaning (see C01, C06, C24, C25 for the individual contracts); what a server does beyond '
                 'the documented semantics encoded in the specification library is an assumption, not a result',
     trusted_base=c25.META['trusted_base'] + c06.META['trusted_base'] + c01.META['trusted_base'],
-    assumptions=['no query is executed on PostgreSQL / MySQL / Oracle: server behaviour is represented by the clauses of vf/sqlsem.py and vf/strhom.py (manual citations there)',
+    assumptions=['no query is executed on PostgreSQL / MySQL / Oracle: server behaviour is represented by the clauses of vf/sqlsem.py and vf/strhom.py (manual citations there) and, for the bounded string / date function contracts, by the documented-semantics interpreters in contracts/c02_strings.py and contracts/c02_dates.py (each lists what it encodes; a form they do not know counts as a failure)',
                  'only the mechanisms under contract are compared, not whole queries'],
 )
 
